@@ -550,14 +550,26 @@ func Do(c *restful.Container, rec *Recorder, r model.ReqSpec, via, id string) (o
 		// go-restful after two looks at the goroutine dump does not terminate (or waits for a
 		// lock the library left held). Anything else the dump shows proves nothing.
 		if where := stuckInLibrary(); where != "" {
-			o.Panic = "DID NOT RETURN within " + RequestWatchdog.String() + ": a goroutine is still in " + where
-			// the verdict stands; while rapid shrinks the case there is no need to wait that long again
-			RequestWatchdog, stuckPause = 3*time.Second, time.Second
+			// a machine that is busy enough can keep a goroutine off the processors for seconds:
+			// a request that does come back within twice the time again was starved, not stuck
+			grace := time.NewTimer(2 * RequestWatchdog)
+			select {
+			case p := <-done:
+				grace.Stop()
+				// (slow is not wrong: the outcome is judged like any other)
+				o.Panic = p
+			case <-grace.C:
+				o.Panic = "DID NOT RETURN within " + (3 * RequestWatchdog).String() + ": a goroutine is still in " + where
+				// the verdict stands; while rapid shrinks the case there is no need to wait that long again
+				RequestWatchdog, stuckPause = 3*time.Second, time.Second
+				return o
+			}
 		} else {
-			noteInconclusive("a request did not return within " + RequestWatchdog.String() + " and the goroutine dump shows no go-restful frame")
+			// starved, not stuck: wait for it and go on with what it answered (a half-filled outcome
+			// must never reach an oracle; should it never come, the part's own time limit ends the
+			// run as inconclusive)
 			o.Panic = <-done
 		}
-		return o
 	}
 	res := w.Result()
 	o.Status = res.StatusCode
